@@ -246,8 +246,11 @@ def check_windows(res, N, bl, strand, frames):
     res.state(("cdsw", bl, strand, tuple(frames)))
     single_frame0 = frames[0 if strand == "+" else -1] == 0 and list(frames) == F.consistent_frames_plus_order(bl, strand, 0)
     for a in range(0, N):
-        for b in range(a + 1, N + 1):
+        # (the documentation allows an end beyond the end of the chromosome: N + 1 and N + 3 mean "to the end")
+        for b in list(range(a + 1, N + 1)) + [N + 1, N + 3]:
             for expand in (False, True):
+                if b > N and expand:
+                    continue
                 for which in ("chromosome", "chunk"):
                     if which == "chunk" and (a + b) % 2:
                         continue  # same code path on a chromosome parent; halve the cost
